@@ -270,15 +270,21 @@ let split3 s = match String.split_on_char ',' s with
   | _ -> failwith "result"
 
 let judge cls ms verb path (reg, res) : string option * string option =
+  (* verb "WS": a WebSocket handshake (GET + Upgrade: websocket), whose verb is the custom kind WEBSOCKET. The recorder
+     cannot be hijacked, so no handler is ever reached on the unchanged code: only soundness is judged (if a method is
+     reached, one of its rules carries WEBSOCKET or '*' and covers the path), not completeness, and not the model *)
+  let ws = (verb = "WS") in
+  let verb = if ws then "WEBSOCKET" else verb in
   let want_reg = spec_reg cls ms in
   if reg = "panic" then (Some "registration panicked", None)
   else if reg <> want_reg then (Some (Printf.sprintf "registration %s, the template specification says %s" reg want_reg), None)
   else begin
-    let spec = if reg = "acc" then spec_route cls ms verb path (split3 res) else None in
+    let (_, dispatched, _) = split3 res in
+    let spec = if reg = "acc" && not (ws && dispatched = "-") then spec_route cls ms verb path (split3 res) else None in
     let (root, mreg) = model_build cls ms in
     let mres = if mreg = "acc" then model_route cls root verb path else res in
     let model = if mreg <> reg then Some (Printf.sprintf "model: registration %s, implementation %s" mreg reg)
-      else if reg = "acc" && mres <> res then Some (Printf.sprintf "model routes to %s, implementation answered %s" mres res) else None in
+      else if reg = "acc" && (not ws) && mres <> res then Some (Printf.sprintf "model routes to %s, implementation answered %s" mres res) else None in
     (spec, model)
   end
 
